@@ -43,7 +43,17 @@ RULE = ("each case: 1-3 FieldIndexes over docids 0..11 (1-5 distinct values, so 
         "True/False/default), len, iter, all, islice(iter), sort (60% on the latest sort result = chains of "
         "1-3 sorts; reverse, limit in {None,1,2,n-1,n,n+1,100,0}, sort_type default or any of the six, "
         "raise_unsortable 70% True), intersect with another result set (also generator-backed sorted ones) "
-        "or a collection/generator. non-trivial = a chained sort with a tie was observed and some first() "
+        "or a collection/generator. Resolvers: the same two functions as lambda / def / bound method / "
+        "functools.partial / callable instances whose truth value is False (__bool__, __len__ == 0) / a memoising "
+        "dict subclass with __call__ (60% of the resolver-carrying result sets; quick seed 0: 1375-1459 result sets "
+        "of each kind, 2944 first() and 74 one() answers resolved by a falsy callable). Mode big (1 case in 100, "
+        "measured 80 of 8001): 300/600/1023/1024/1025/1100/1500/2048/3000 documents, first key a permutation / "
+        "reversed docid order / random, second key with 2-5 distinct values (ties), some ids value-less or unknown, "
+        "the result set a query result or a list/tuple/IF set/generator of (nearly) all ids in random order, then "
+        "chains of 2-3 sorts with limits 1..25, size/k +-1 for k in 4..64, size/2, size+-1 or none, both directions "
+        "(quick seed 0: 22 second sorts over >= 1024 ids with limit <= size/16, 13 with a larger limit, 21 over "
+        "300-1023 ids), and direct sorts of shuffled collections with sort_type stable/timsort. "
+        "non-trivial = a chained sort with a tie was observed and some first() "
         "was called on a generator-backed result set before it was iterated")
 LEVEL_TEXT = ("Lean 4 theorems for both id representations (collection / one-shot stream) and every resolver: "
               "first = head and leaves the receiver unchanged, any interleaving of first/one/len consumes "
@@ -67,6 +77,14 @@ MUTATIONS = """
   5 intersect(): the materialisation added by fix 539284e removed again (old D17: a generator-backed
     argument is consumed by the membership tests)                                                       caught
   6 all(): `resolver is None or not resolve` -> `resolver is None or resolve` (resolve flag inverted)    caught
+Size- and object-kind-dependent changes (builder wt_strong4; scratch copies /var/tmp/mut_s4_*, deleted afterwards):
+  seeded C11_E  FieldIndex.timsort_* hand over to n-best for >= 1024 ids and limit <= len/16 (chained sort loses
+                the first order among ties)                                       MISSED before mode big, now caught
+  seeded C11_F  first(): `if resolve and self.resolver` (a falsy callable resolver is skipped)
+                                                          MISSED before the resolver kinds, now caught
+  M11a sort(): the result is marked STABLE only when numids < 1000 (a third party's chained sort of a big result
+       may pick n-best / forward scan)                                                                     caught
+  M11b all(): `resolver is None` -> `not resolver`                                                         caught
 """
 
 POOL = list(range(12))
@@ -74,6 +92,18 @@ STYPES = ["none", "stable", "optimal", "fwscan", "nbest", "timsort"]
 COLL_KINDS = ["list", "list", "tuple", "pyset", "frozenset", "ifset"]
 STREAM_KINDS = ["gen", "iter"]
 RESOLVERS = ["none", "none", "plus", "neg"]
+# the same two resolver FUNCTIONS as different kinds of Python callables (token `<function>:<kind>`; the model is
+# told the function only): a def, a bound method, a functools.partial, a callable instance whose truth value is
+# False (`__bool__` / `__len__` == 0), and a memoising dict subclass with `__call__` (falsy until it has
+# resolved something).  `resolver is None` is the only legal "no resolver" test.
+RESOLVER_KINDS = ["fn", "method", "partial", "falsy", "nolen", "memo"]
+
+
+def pick_resolver(rng):
+    r = rng.choice(RESOLVERS)
+    if r != "none" and rng.random() < 0.6:
+        return r + ":" + rng.choice(RESOLVER_KINDS)
+    return r
 CMPS = ["ge", "le", "gt", "lt", "eq"]
 
 
@@ -98,7 +128,9 @@ def iteration_order(kind, ids):
 
 def model_cmd(c):
     if c[0] == "new":
-        return list(c[:5]) + iteration_order(c[2], c[5:])
+        return list(c[:4]) + [str(c[4]).split(":")[0]] + iteration_order(c[2], c[5:])
+    if c[0] == "query":
+        return list(c[:3]) + [str(c[3]).split(":")[0]] + list(c[4:])
     if c[0] == "intersect" and c[3] != "rs":
         return list(c[:4]) + iteration_order(c[3], c[4:])
     return c
@@ -136,10 +168,81 @@ def gen_new(rng, slot):
     k = rng.choice([0, 1, 2, 3, 5, 8, 8, 10, 12, 12])
     ids = rng.sample(POOL + [20, 21], min(k, len(POOL) + 2))
     num = "auto" if rng.random() < 0.95 else rng.choice([0, 1, 2, len(ids) + 1])
-    return ["new", slot, kind, num, rng.choice(RESOLVERS)] + ids
+    return ["new", slot, kind, num, pick_resolver(rng)] + ids
+
+
+BIG_EVERY = 100      # one case in BIG_EVERY is a large chained sort (see gen_big)
+BIG_SIZES = [300, 600, 1023, 1024, 1025, 1100, 1500, 1500, 2048, 3000]
+
+
+def gen_big(rng):
+    """Large result sets (300-3000 ids; sizes around 1024 and the usual size/limit breakpoints of an index's sort
+    heuristics): a first sort by a key whose order has nothing to do with docid order, then a second (and now and
+    then a third) sort by a key with 2-5 distinct values under a limit anywhere between 1 and the size - the second
+    sort must keep the first order among equal keys whatever algorithm the index would like to use for that
+    size/limit ratio.  Also direct sorts of shuffled collections with an explicit stable / timsort sort_type."""
+    n = rng.choice(BIG_SIZES)
+    cmds = []
+    # index 0: the first key (n distinct values in random order / reversed docid order / a few duplicates)
+    style = rng.choice(["perm", "reversed", "random"])
+    perm = list(range(n))
+    rng.shuffle(perm)
+    nv = rng.choice([2, 3, 3, 5])
+    holes = set(rng.sample(range(n), rng.choice([0, 0, 0, 1, 3]))) if rng.random() < 0.3 else set()
+    for d in range(n):
+        v0 = perm[d] if style == "perm" else n - d if style == "reversed" else rng.randrange(n)
+        cmds.append(["ix", 0, "index", d, v0])
+        if d not in holes:
+            cmds.append(["ix", 1, "index", d, rng.randrange(nv)])
+        elif rng.random() < 0.5:
+            cmds.append(["ix", 1, "index", d, "none"])      # known without a value; else: unknown to index 1
+    # the result set: all ids by a query, or a collection of (nearly) all ids in random order
+    r = rng.random()
+    if r < 0.4:
+        cmds.append(["query", 0, 0, pick_resolver(rng), "ge", 0])
+        m = n
+    else:
+        m = n if r < 0.7 else rng.randrange(max(1, n - 100), n + 1)
+        ids = rng.sample(range(n), m)
+        cmds.append(["new", 0, rng.choice(["list", "tuple", "ifset", "gen"]), "auto", pick_resolver(rng)] + ids)
+    slot = 0
+    nslot = 1
+
+    def limit():
+        q = rng.random()
+        if q < 0.1:
+            return "none"
+        if q < 0.45:
+            return rng.choice([1, 2, 3, 7, 10, 25])
+        if q < 0.8:
+            k = rng.choice([4, 8, 16, 16, 32, 64])
+            return max(1, m // k + rng.choice([-1, 0, 0, 1]))
+        return max(1, rng.choice([m // 2, m - 1, m, m + 1]))
+
+    chain = [(0, rng.randrange(2), "none" if rng.random() < 0.8 else limit(), "none")]
+    for _ in range(rng.choice([1, 1, 1, 2])):
+        chain.append((rng.choice([1, 1, 1, 0]), rng.randrange(2), limit(),
+                      "none" if rng.random() < 0.8 else rng.choice(["stable", "timsort"])))
+    if rng.random() < 0.2:
+        # no first sort: a shuffled collection sorted with an explicitly stable sort type
+        chain = [(1, rng.randrange(2), limit(), rng.choice(["stable", "timsort"]))]
+    for (i, rev, lim, st) in chain:
+        dst = nslot
+        nslot += 1
+        cmds.append(["new", dst, "list", "auto", "none"])
+        cmds.append(["sort", slot, dst, i, rev, lim, st, 1 if rng.random() < 0.8 else 0])
+        if rng.random() < 0.5:
+            cmds.append(["first", dst, rng.choice([0, 1])])
+        slot = dst
+    cmds.append(["len", slot])
+    cmds.append(["first", slot, 1])
+    cmds.append(["iter", slot])
+    return {"session": "resultset", "cfg": [], "cmds": cmds}
 
 
 def gen(rng, tier, idx):
+    if idx % 1000003 % BIG_EVERY == 7:
+        return gen_big(rng)
     nidx = rng.choice([1, 2, 2, 3])
     cmds = []
     for i in range(nidx):
@@ -160,7 +263,7 @@ def gen(rng, tier, idx):
     for _ in range(rng.choice([1, 2, 3])):
         s = fresh()
         if rng.random() < 0.25:
-            cmds.append(["query", s, rng.randrange(nidx), rng.choice(RESOLVERS), rng.choice(CMPS), rng.randrange(3)])
+            cmds.append(["query", s, rng.randrange(nidx), pick_resolver(rng), rng.choice(CMPS), rng.randrange(3)])
             size[s] = 5
         else:
             cmds.append(gen_new(rng, s))
@@ -253,11 +356,51 @@ class Impl(object):
         return self.idx[i]
 
     def resolver(self, name):
-        if name == "plus":
-            return lambda d: Obj(d + 1000)
-        if name == "neg":
-            return lambda d: Obj(-d - 1)
-        return None
+        import functools
+        fname, _, kind = str(name).partition(":")
+        if fname == "plus":
+            f = lambda d: Obj(d + 1000)
+        elif fname == "neg":
+            f = lambda d: Obj(-d - 1)
+        else:
+            return None
+        if kind == "":
+            return f
+        if kind == "fn":
+            def resolve(docid):
+                return f(docid)
+            return resolve
+        if kind == "method":
+            class Holder(object):
+                def resolve(self, docid):
+                    return f(docid)
+            return Holder().resolve
+        if kind == "partial":
+            return functools.partial(lambda k, d: f(d), 0)
+        if kind == "falsy":
+            class Falsy(object):
+                def __bool__(self):
+                    return False
+
+                def __call__(self, docid):
+                    return f(docid)
+            return Falsy()
+        if kind == "nolen":
+            class Sized(object):
+                def __len__(self):
+                    return 0
+
+                def __call__(self, docid):
+                    return f(docid)
+            return Sized()
+        if kind == "memo":
+            class Memo(dict):
+                def __call__(self, docid):
+                    if docid not in self:
+                        self[docid] = f(docid).n
+                    return Obj(self[docid])
+            return Memo()
+        raise ValueError(name)
 
     def ids_object(self, kind, ids):
         ids = list(ids)
@@ -392,6 +535,11 @@ def same(a, b):
     return a == b
 
 
+def resolver_kind(tok):
+    fname, _, kind = str(tok).partition(":")
+    return "none" if fname == "none" else (kind or "lambda")
+
+
 def nontrivial(case, outs):
     sorted_slots = {}
     chained_tie = False
@@ -410,24 +558,36 @@ def features(case, outs):
     f = []
     kinds = {}
     sorted_from = {}
+    sizes = {}
+    rkind = {}
+    nix = sum(1 for c in case["cmds"] if c[0] == "ix")
+    if nix > 200:
+        f.append("mode:big")
     for c, o in zip(case["cmds"], outs):
         op = c[0]
         if op == "ix":
             continue
         if op == "new":
             kinds[c[1]] = "stream" if c[2] in STREAM_KINDS else "coll"
+            sizes[c[1]] = len(c) - 5
+            rkind[c[1]] = resolver_kind(c[4])
             if len(c) > 5 or c[2] != "list":
                 f.append("new:%s%s" % (c[2], "/wrong-numids" if c[3] != "auto" else ""))
+                f.append("resolver:" + rkind[c[1]])
             continue
         if op == "query":
             kinds[c[1]] = "coll"
+            rkind[c[1]] = resolver_kind(c[3])
             f.append("query")
+            f.append("resolver:" + rkind[c[1]])
             continue
         rep = kinds.get(c[1], "?")
         res = "err:" + o.split()[1] if o.startswith("err") else "ok"
         if op in ("first", "one"):
             f.append("%s/%s/%s" % (op, rep, "none" if o == "none" else "obj" if o.startswith("@") else res if
                                    res != "ok" else "id"))
+            if rkind.get(c[1], "none") in ("falsy", "nolen", "memo") and c[2] and o.startswith("@"):
+                f.append("%s/resolved-by-falsy-callable" % op)
         elif op in ("iter", "all", "take"):
             f.append("%s/%s/%s" % (op, rep, "Unsortable" if "Unsortable" in o else "empty" if o.startswith("[]")
                                    else "items"))
@@ -437,9 +597,20 @@ def features(case, outs):
             f.append("len/%s" % rep)
         elif op == "sort":
             depth = sorted_from.get(c[1], 0) + 1
+            rkind[c[2]] = rkind.get(c[1], "none")
             if o.startswith("len="):
                 kinds[c[2]] = "stream" if " gen " in o else "coll"
                 sorted_from[c[2]] = depth
+                nsrc = sizes.get(c[1], 0)
+                if nsrc == 0 and nix > 200:
+                    nsrc = nix // 2         # a query over the whole big index
+                sizes[c[2]] = nsrc if c[5] in ("none", 0) else min(nsrc, c[5])
+                if nsrc >= 1024:
+                    lim = c[5]
+                    f.append("sort/big(>=1024)/depth%d/%s" % (min(depth, 3), "nolimit" if lim in ("none", 0) else
+                             "limit<=n/16" if 16 * lim <= nsrc else "limit>n/16"))
+                elif nsrc >= 200:
+                    f.append("sort/big(<1024)/depth%d" % min(depth, 3))
                 f.append("sort/depth%d/%s" % (min(depth, 3), "Unsortable@iter" if "Unsortable" in o else "ok"))
                 f.append("sort/st:%s" % c[6])
                 if c[5] != "none":
